@@ -19,7 +19,7 @@ MSG_CLASSES = ["plain", "pct", "ctl", "u2", "u3"]
 
 
 def design_check(scratch, tier):
-    mc = C.tlc(scratch, "Rpc_MC.tla", "Rpc_MC.cfg", workers=12, timeout=1500, tag="rpcmc")
+    mc = C.tlc(scratch, "Rpc_MC.tla", "Rpc_MC.cfg" if tier == "quick" else "Rpc_MCbig.cfg", workers=12 if tier == "quick" else 16, timeout=1500 if tier == "quick" else 7200, tag="rpcmc")
     C.tlc_ok(mc, "Rpc_MC")
     if C.tlc_violated(mc):
         raise C.Infra("Rpc design check violated:\n" + mc["out"][-2000:])
